@@ -61,6 +61,9 @@ func (w *World) All() []Obj {
 	add("SuffrageGenesisJoin", true, w.SuffrageGenesisJoin())
 	add("NetworkPolicyOp", true, w.NetworkPolicyOp())
 	add("GenesisNetworkPolicyOp", true, w.GenesisNetworkPolicyOp())
+	add("NetworkPolicyOp/same-key-signs", true, w.NetworkPolicyOpSameKey())
+	add("SuffrageExpelOperation/same-key-signs", true, w.SuffrageExpelOperationSameKey())
+	add("SuffrageJoin/same-key-signs", true, w.SuffrageJoinSameKey())
 
 	// operation facts on their own
 	for _, o := range []interface{ Fact() base.Fact }{exps[0], w.SuffrageCandidate(), w.SuffrageJoin(), w.SuffrageDisjoin(), w.SuffrageGenesisJoin(), w.NetworkPolicyOp(), w.GenesisNetworkPolicyOp()} {
